@@ -83,12 +83,17 @@ func (w *World) c14PacketLevel() []Pkt {
 	denoms := []string{"", "u", "transfer/channel-9/", "transfer/channel-9/x", "transfer/channel-9/1abc", "transfer/channel-9/uusdc", "transfer/channel-9/transfer/channel-3/uatom",
 		"ibc/27394FB092D2ECCD56123C74F36E4C1F926001CEADA9CA97EA622B25F41E5EB2", "transfer/channel-9/ibc/27394FB092D2ECCD56123C74F36E4C1F926001CEADA9CA97EA622B25F41E5EB2",
 		"transfer/channel-9/" + strings.Repeat("a", 129), "///", "transfer/channel-9//", "transfer/channel-9/u u", "transfer/channel-9/UUSDC", "transfer/channel-9/a-b.c_d:e", "transfer/channel-9/\x00"}
-	amounts := []string{"", "0", "-5", "+5", "0x10", "1_0", "1e3", maxUint256Str, twoTo256, " 1", "abc", "-0", "00", "1.0", "٣"}
+	wide := []string{strings.Repeat("１", 400), strings.Repeat("\U0001F600", 300), "1" + strings.Repeat("\u0301", 700), strings.Repeat("9", 3000)}
+	amounts := append([]string{"", "0", "-5", "+5", "0x10", "1_0", "1e3", maxUint256Str, twoTo256, " 1", "abc", "-0", "00", "1.0", "٣"}, wide...)
 	var rcvs []string
 	for _, e := range encodingsOf(w.Orb) {
 		rcvs = append(rcvs, e.S)
 	}
 	rcvs = append(rcvs, w.Bob.String(), "", "noble1invalid")
+	for _, ws := range wide {
+		denoms = append(denoms, "transfer/channel-9/"+ws)
+		rcvs = append(rcvs, ws, orb+ws)
+	}
 	for _, d := range denoms {
 		for _, a := range amounts {
 			p := base
